@@ -257,17 +257,28 @@ func (w *World) ruleValuesPerIteration(r *Report, rule string) {
 			}
 			cur := ""
 			v, m := 0, 0
+			// one loop shared by several productions (`for i := 0; i < count; i++ { emit(i) }`
+			// with emit chosen before the loop) is one loop per function value it runs
+			bind := ""
 			for _, e := range p.Trace {
 				if e.Kind == "loophead" {
 					if cur == e.Extra && (v > 0 || m > 0 || true) {
-						if vals[cur] == nil {
-							vals[cur], emis[cur] = map[int]bool{}, map[int]bool{}
+						if emis[cur] == nil {
+							emis[cur] = map[int]bool{}
 						}
-						vals[cur][v] = true
 						emis[cur][m] = true
+						k := cur
+						if bind != "" {
+							k += " via " + bind
+						}
+						if vals[k] == nil {
+							vals[k] = map[int]bool{}
+						}
+						vals[k][v] = true
 					}
 					cur = e.Extra
 					v, m = 0, 0
+					bind = ""
 					continue
 				}
 				switch {
@@ -276,6 +287,11 @@ func (w *World) ruleValuesPerIteration(r *Report, rule string) {
 					m++
 				case e.Kind == "octets" || e.Kind == "bytes" || strings.HasPrefix(e.Kind, "scalar:"):
 					m++
+				default:
+					continue
+				}
+				if b := valueBinding(e); b != "" && !strings.Contains(bind, b) {
+					bind += b
 				}
 			}
 		}
